@@ -27,7 +27,7 @@ FUNCTIONS = ['geophires_x_client:GeophiresXClient.get_geophires_result', 'geophi
              'geophires_x_client.geophires_input_parameters:GeophiresInputParameters.get_output_file_path',
              'hip_ra_x:HipRaXClient.get_hip_ra_result', 'geophires_x_schema_generator:GeophiresXSchemaGenerator._get_dummy_model']
 UNIT_TIMEOUT = {'quick': 200, 'thorough': 900}
-HS = {'quick': [1, 2], 'thorough': [1, 2, 3]}
+HS = {'quick': [1, 2], 'thorough': [1, 2, 3, 4, 5]}
 META = {
     'explanation': 'The real client methods run inside a symbolic world: the working directory, the argument vector, the content of every '
                    'input file at every call (an arbitrary rewrite may happen between calls), whether each simulated run fails (exception '
@@ -293,7 +293,7 @@ def run_history_unit(unit):
     def fn():
         return history(which, H, caching)
     n = 0
-    for pr in core.explore(fn, max_paths=20000):
+    for pr in core.explore(fn, max_paths=400000):
         log.path(pr)
         n += 1
         if pr.error is not None:
